@@ -143,6 +143,8 @@ def run_check(harness_name, tier, seed=0, jobs=None, only=None):
                 pool.terminate()
                 break
             results[idx] = d
+            if os.environ.get("SYMX_VERBOSE"):
+                print("  done %s %s wall=%.1fs paths=%d sat=%d unknown=%d" % (d["case"][0], json.dumps(d["case"][1])[:150], d["wall"], d["paths"], d["sat"], d["unknown"]), flush=True)
 
     agg = {k: 0 for k in ("paths", "aborted", "queries", "decisions", "obligations", "discharged", "sat", "unknown",
                           "feas_unknown", "validated", "validation_mismatch", "twins", "twins_sat")}
